@@ -19,7 +19,7 @@ RULE = ("class skeletons: bases {none, one, two, inherited chain, diamond, base 
         "dunder methods, class variable as method default, annotated member, method closing over a function local, "
         "augmented class attribute, walrus-free conditional member, metaclass-visible member) plus every pair and triple "
         "of member kinds under rotating headers; x option combinations (2 rotating in quick, 8 in thorough); hosts 3.12 + "
-        "3.11 slice (thorough: 3.10-3.13). Distinct by (header, members, placement, options); non-trivial iff the class "
+        "hash-selected slices on 3.11 and 3.13 (thorough: 3.10-3.13). Distinct by (header, members, placement, options); non-trivial iff the class "
         "has at least one member or a non-trivial header.")
 ASSUMPTIONS = ["metadata attributes (__module__, __qualname__, __doc__, __firstlineno__, __static_attributes__, __annotations__) are excluded, as the property states",
                "members are compared by kind/name and data values by repr; behaviour by calling them"]
@@ -102,6 +102,14 @@ MEMBERS = {
     'initsub_decorated': ["@trace", "def __init_subclass__(cls, **kw):", "    super().__init_subclass__(**kw)", "    cls.sub_seen = 'traced-hook-ran'"],
     'decorated_methods': ["@trace", "def m(self, a=2):", "    return ('m', a)", "@staticmethod", "@trace", "def s(a):", "    return ('s', a)", "@classmethod", "@trace", "def c(cls):", "    return ('c', cls.__name__)",
                           "@property", "@trace", "def p(self):", "    return 'p'"],
+    # positional-only receiver: zero-argument super() must still find the first parameter
+    'super0_posonly': ["def who(self, /):", "    out = []", "    for i in range(2):", "        out.append('P' + str(i) + '>' + (super().who() if hasattr(super(), 'who') else '-'))", "    return out",
+                       "def who3(self, /, x=1, *, y=2):", "    n = 0", "    while n < 1:", "        n += 1", "        r = (x, y, hasattr(super(), 'who'), super().__init__ is not None)", "    return r",
+                       "@classmethod", "def c(cls, /, z=3):", "    for _ in range(1):", "        r = ('c-posonly', z, super().__init_subclass__ is not None, cls.__name__)", "    return r"],
+    # hooks that type() turns into class methods by itself, spelled with and without an explicit decorator
+    'classgetitem': ["def __class_getitem__(cls, key):", "    return ('implicit', cls.__name__, key)"],
+    'classgetitem_decorated': ["@classmethod", "def __class_getitem__(cls, key):", "    return ('explicit', cls.__name__, key)"],
+    'initsub_classmethod': ["@classmethod", "def __init_subclass__(cls, **kw):", "    super().__init_subclass__(**kw)", "    cls.sub_seen = 'explicit-classmethod:' + cls.__name__"],
     'classcell': ["def cc(self):", "    return __class__.__name__", "def cc_super(self):", "    return super().__class__.__name__, super().__init__ is not None"],
 }
 CALLS = ('m', 'm5', 's', 'c', 'p', 'im', 'lam', 'who', 'who2', 'getpv', 'dd', 'md', 'tag', 'hello', 'd1', 'd2')
@@ -135,7 +143,7 @@ def _obs(K):
                        ('who', lambda: o.who()), ('who2', lambda: o.who2()), ('getpv', lambda: o.getpv()), ('dd', lambda: o.dd), ('md', lambda: o.md()), ('tag', lambda: K.tag), ('hello', lambda: K.hello()),
                        ('d1', lambda: K.d1), ('d2', lambda: K.d2), ('hasdict', lambda: hasattr(o, '__dict__')), ('repr', lambda: repr(o) if 'K()' == repr(o) else 'default'),
                        ('cm2', lambda: o.cm2()), ('cc', lambda: o.cc()), ('cc_super', lambda: o.cc_super()), ('at_deco_time', lambda: K.at_deco_time), ('from_deco', lambda: K.from_deco), ('ps', lambda: (K.ps, K.pt, o.pm())), ('take', lambda: (o.take(), o.take(1, n=0), K.stake(), K.ctake(), K.take.__kwdefaults__)), ('kind_received', lambda: K.__dict__['__init_subclass__'].__func__.kind_received), ('hv', lambda: K.hv), ('mk', lambda: type(K.mk()).__name__), ('iv', lambda: o.iv), ('setp', lambda: (setattr(o, 'p', 3), o._pv)[1]),
-                       ('seen_by_meta', lambda: K.seen_by_meta), ('attrs_at_subclass_time', lambda: K.attrs_at_subclass_time), ('sc', lambda: K().s(2)), ('cnt', lambda: (K.cnt, K.lst))]:
+                       ('cgi', lambda: K[0]), ('who3', lambda: (o.who3(), o.who3(5, y=6))), ('seen_by_meta', lambda: K.seen_by_meta), ('attrs_at_subclass_time', lambda: K.attrs_at_subclass_time), ('sc', lambda: K().s(2)), ('cnt', lambda: (K.cnt, K.lst))]:
         try: out.append((name, repr(call())))
         except Exception as e: out.append((name, 'exc:' + type(e).__name__))
     try:
@@ -145,6 +153,8 @@ def _obs(K):
         except Exception as e: out.append(('subwho', 'exc:' + type(e).__name__))
         try: out.append(('subc', Sub.c()))
         except Exception as e: out.append(('subc', 'exc:' + type(e).__name__))
+        try: out.append(('subcgi', Sub['k']))
+        except Exception as e: out.append(('subcgi', 'exc:' + type(e).__name__))
     except Exception as e:
         out.append(('subclassing', 'exc:' + type(e).__name__))
     return out
@@ -256,7 +266,7 @@ def run_case(rec, hdr, members, pl, cfg):
 def jobs(tier, seed):
     from ..driver import NCPU
     out = [{"host": "3.12", "shard": i, "nshards": NCPU, "args": {}} for i in range(NCPU)]
-    for h in (["3.11"] if tier == "quick" else ["3.10", "3.11", "3.13"]):
+    for h in (["3.11", "3.13"] if tier == "quick" else ["3.10", "3.11", "3.13"]):
         n = 4 if tier == "quick" else 8
         out += [{"host": h, "shard": i, "nshards": n, "args": {"other_host": True}} for i in range(n)]
     return out
@@ -266,10 +276,10 @@ def run_shard(rec):
     idx = 0
     other = rec.args.get("other_host")
     for hdr, members, pl in cells(rec.tier):
+        if other and rec.tier == "quick" and int(rt.h8([list(hdr), members, pl]), 16) % 6:
+            continue          # a hash-selected sixth (a stride would alias with the loop structure)
         idx += 1
-        if other and rec.tier == "quick" and idx % 6:
-            continue
-        if (idx // (6 if other and rec.tier == "quick" else 1)) % rec.nshards != rec.shard:
+        if idx % rec.nshards != rec.shard:
             continue
         if rec.out_of_budget():
             rec.truncated += 1
